@@ -73,7 +73,8 @@ func runTimersScenario(sc tScenario, prefix, prefixN []int) (*sched.Exec, *timer
 	r := &timersRun{x: x}
 	ctx, cancel := context.WithCancel(context.Background())
 	var ts *Timers
-	do := func(who string, op tOp) {
+	var do func(ctx context.Context, who string, op tOp)
+	do = func(ctx context.Context, who string, op tOp) {
 		switch op.K {
 		case "make":
 			tok := r.nextToken()
@@ -97,13 +98,14 @@ func runTimersScenario(sc tScenario, prefix, prefixN []int) (*sched.Exec, *timer
 			r.rec(ev{Kind: "shutdown"})
 		}
 	}
-	emitter := func(ctx context.Context, message interface{}) error {
+	emitter := func(hctx context.Context, message interface{}) error {
 		tok := message.(map[string]interface{})["token"].(int)
 		r.rec(ev{Kind: "fire-begin", Token: tok})
 		sched.Yield("in-handler")
 		if r.takeHandler() {
 			for _, op := range sc.Handler {
-				do("handler", op)
+				// a handler works with the context it was given (as the mcrew service does)
+				do(hctx, "handler", op)
 				sched.Yield("in-handler-after-op")
 			}
 		}
@@ -113,7 +115,7 @@ func runTimersScenario(sc tScenario, prefix, prefixN []int) (*sched.Exec, *timer
 	ts = NewTimers(emitter)
 	x.Go("requester", func() {
 		for _, op := range sc.Req {
-			do("req", op)
+			do(ctx, "req", op)
 			sched.Yield("after-" + op.K)
 		}
 	})
